@@ -1,6 +1,7 @@
 package checks
 
 import (
+	"encoding/json"
 	"fmt"
 	"os"
 	"strings"
@@ -81,6 +82,11 @@ func init() {
 					e.Emit(engine.Case{Kind: "c16cli:" + bin, Leg: "cli/" + bin, A: t})
 				}
 			}
+			for _, t := range c16NumberTexts() {
+				for _, emb := range []string{"%s", "[%s]", `{"a": %s}`, `{"a": [%s, %s]}`} {
+					e.Emit(engine.Case{Kind: "c16n", Leg: "json-number-texts", A: strings.ReplaceAll(emb, "%s", t)})
+				}
+			}
 			d := c16Docs(tier)
 			hk := engine.HS("c16")
 			for i, t := range d.Texts {
@@ -96,9 +102,54 @@ func init() {
 	})
 }
 
+// c16NumberTexts: every text of at most 6 symbols over {- 0 1 9 . e E +} that is a JSON number, plus a ladder of
+// magnitudes around int64 / uint64 / float64 limits. A JSON number is also a YAML plain scalar, so the same text
+// (alone, in a flow sequence, in a flow mapping) is a document for both readers.
+func c16NumberTexts() []string {
+	var out []string
+	allStrings([]string{"-", "0", "1", "9", ".", "e", "E", "+"}, 6, func(s string) {
+		if s != "" && json.Valid([]byte(s)) {
+			out = append(out, s)
+		}
+	})
+	return append(out, "9223372036854775807", "9223372036854775808", "18446744073709551615", "18446744073709551616", "-9223372036854775808", "-9223372036854775809",
+		"1e308", "1.7976931348623157e308", "4.9e-324", "1e-400", "123456789012345678901234567890", "100000000000000000000000", "9007199254740993", "4294967296", "2147483648", "-2147483649")
+}
+
+func runC16N(c *engine.Case) engine.Result {
+	res := engine.Result{Nontrivial: true, Traces: 1}
+	var fail string
+	p := impl.Guard(func() {
+		nj, err := jd.ReadJsonString(c.A)
+		res.Transitions++
+		if err != nil {
+			res.Bucket = "number-text/not-a-json-document"
+			return
+		}
+		res.Bucket = "number-text/both-readers"
+		ny, err := jd.ReadYamlString(c.A)
+		res.Transitions++
+		if err != nil {
+			fail = fmt.Sprintf("the text %q is read as JSON (%s) but ReadYamlString fails: %v", c.A, nj.Json(), err)
+			return
+		}
+		if !ny.Equals(nj) || !nj.Equals(ny) {
+			fail = fmt.Sprintf("the text %q read from YAML is %s, read from JSON it is %s", c.A, ny.Json(), nj.Json())
+		}
+	})
+	if p != "" {
+		fail = p
+	}
+	res.Violation = fail
+	return res
+}
+
 func runC16(c *engine.Case) engine.Result {
 	if strings.HasPrefix(c.Kind, "c16cli:") {
 		return runC16CLI(c)
+	}
+	if c.Kind == "c16n" {
+		return runC16N(c)
 	}
 	v := ref.MustParse(c.A)
 	res := engine.Result{Nontrivial: true}
